@@ -196,48 +196,51 @@ Fixpoint is_prefix (a b : list Z) : bool :=
    A run of an entry point is the sequence of its backend operations [Op] with the places where the code
    consults the context ([Chk] = parallelisation.DetermineContextError, or a contextual Read/Write guard).
    If the context ends inside the k-th backend operation, execution goes on until the next [Chk]. *)
-Inductive bev := Chk | Op.
+(* [ChkD d]: a check point inside the scope of d deferred clean-up operations (deferred Close calls): when the run
+   stops there, those d operations are still issued.  [Chk] = a check point outside any such scope. *)
+Inductive bev := ChkD (d : nat) | Op.
+Notation Chk := (ChkD 0).
 
-Fixpoint ops (tr : list bev) : nat := match tr with [] => 0 | Op :: t => S (ops t) | Chk :: t => ops t end.
+Fixpoint ops (tr : list bev) : nat := match tr with [] => 0 | Op :: t => S (ops t) | ChkD _ :: t => ops t end.
 
-(* operations executed before the next check point *)
-Fixpoint head_run (tr : list bev) : nat := match tr with Op :: t => S (head_run t) | _ => 0 end.
+(* operations executed before the next check point, plus the clean-up it triggers *)
+Fixpoint head_run (tr : list bev) : nat := match tr with Op :: t => S (head_run t) | ChkD d :: _ => d | [] => 0 end.
 
 (* the rest of the trace after its k-th backend operation (k >= 1) *)
 Fixpoint after_kth (k : nat) (tr : list bev) : list bev :=
   match tr with
   | [] => []
-  | Chk :: t => after_kth k t
+  | ChkD _ :: t => after_kth k t
   | Op :: t => match k with 0 => tr | 1 => t | S k' => after_kth k' t end
   end%nat.
 
 (* backend operations issued after the context ended inside the k-th one *)
 Definition ops_after (k : nat) (tr : list bev) : nat := head_run (after_kth k tr).
 
-(* longest stretch of backend operations without a check point *)
+(* longest stretch of backend operations without a check point (clean-up included) *)
 Fixpoint max_gap_aux (cur : nat) (tr : list bev) : nat :=
   match tr with
   | [] => cur
-  | Chk :: t => Nat.max cur (max_gap_aux 0 t)
+  | ChkD d :: t => Nat.max (cur + d) (max_gap_aux 0 t)
   | Op :: t => max_gap_aux (S cur) t
   end.
 Definition max_gap (tr : list bev) : nat := max_gap_aux 0 tr.
 
 (* operations after the last check point *)
 Fixpoint tail_run_aux (cur : nat) (tr : list bev) : nat :=
-  match tr with [] => cur | Chk :: t => tail_run_aux 0 t | Op :: t => tail_run_aux (S cur) t end.
+  match tr with [] => cur | ChkD _ :: t => tail_run_aux 0 t | Op :: t => tail_run_aux (S cur) t end.
 Definition tail_run (tr : list bev) : nat := tail_run_aux 0 tr.
 
 Definition opsn (n : nat) : list bev := repeat Op n.
 
 (* trees: a file, or a directory with its children (in listing order) *)
-Inductive tree := F | D (children : list tree).
+Inductive tree := F (chunks : nat) | D (children : list tree).   (* a file: number of io.Copy buffer fills (32 KiB) *)
 
 (* Primitive sequences of the VFS helpers on the in-memory back end, counted in backend operations
    (files.go): Exists = Stat (+ Open, Readdirnames, Close, Close for a directory, :637-670);
    IsDir/IsFile = Exists + Stat (:758-823); Ls = IsDir + Open + Readdirnames + Close + Close (:1245-1262);
    Lstat = 1. *)
-Definition is_dir (t : tree) : bool := match t with D _ => true | F => false end.
+Definition is_dir (t : tree) : bool := match t with D _ => true | F _ => false end.
 Definition c_exists (t : tree) : nat := if is_dir t then 5 else 1.
 Definition c_isdir (t : tree) : nat := c_exists t + 1.
 Definition c_ls : nat := (5 + 1) + 4.
@@ -247,7 +250,7 @@ Definition c_ls : nat := (5 + 1) + 4.
 Fixpoint walk_tr (cb : nat) (t : tree) : list bev :=
   Chk :: opsn cb ++
   match t with
-  | F => []
+  | F _ => []
   | D cs => opsn c_ls ++ flat_map (fun c => Chk :: Op :: walk_tr cb c) cs
   end.
 
@@ -262,7 +265,7 @@ Definition chmod_entry (t : tree) : list bev := Chk :: opsn (c_isdir t) ++ walk_
    check (:1857), IsDir (:1864), recurse into directories *)
 Fixpoint listtree_tr (t : tree) : list bev :=
   match t with
-  | F => []
+  | F _ => []
   | D cs => Chk :: opsn c_ls ++ flat_map (fun c => Chk :: opsn (c_isdir c) ++ listtree_tr c) cs
   end.
 Definition listtree_entry (t : tree) : list bev := Chk :: listtree_tr t.
@@ -270,6 +273,102 @@ Definition listtree_entry (t : tree) : list bev := Chk :: listtree_tr t.
 (* bounds (longest check-free stretch) claimed for these entry points, as functions of the callback cost *)
 Definition B_walk (cb : nat) : nat := cb + c_ls.
 Definition B_listtree : nat := c_ls.
+
+
+(* ---- removal, cleaning, copy, move (files.go on /repo HEAD; in-memory back end, no links, no exclusions) ---- *)
+(* IsEmpty (files.go IsEmpty/isFileEmpty/isDirEmpty): Exists + IsFile + (file: Stat | empty directory: Open,
+   Readdirnames, Close | non-empty directory: Open, Readdirnames, Close, Close) *)
+Definition c_isempty (t : tree) : nat :=
+  c_exists t + c_isdir t + match t with F _ => 1 | D [] => 3 | D _ => 4 end.
+Definition c_isempty_emptied (t : tree) : nat :=     (* the same test once the content has been removed *)
+  match t with F _ => c_isempty t | D _ => c_isempty (D []) end.
+
+(* removeWithExclusionPatterns: Lstat (link test), Exists, IsDir, IsEmpty, [CleanDir], IsEmpty, CHECK, Remove.
+   CleanDirWithContextAndExclusionPatterns: CHECK, Exists, IsEmpty, Ls, per entry: CHECK (removeFileWithContext), remove *)
+Fixpoint remove_tr (t : tree) : list bev :=
+  opsn (1 + c_exists t + c_isdir t + c_isempty t) ++
+  match t with
+  | D (c0 :: cs0) =>
+      Chk :: opsn (c_exists t + c_isempty t + c_ls) ++ flat_map (fun c => Chk :: remove_tr c) (c0 :: cs0)
+  | _ => []
+  end ++ opsn (c_isempty_emptied t) ++ [Chk; Op].
+
+Definition clean_entry (t : tree) : list bev :=
+  match t with
+  | D (c0 :: cs0) => Chk :: opsn (c_exists t + c_isempty t + c_ls) ++ flat_map (fun c => Chk :: remove_tr c) (c0 :: cs0)
+  | _ => Chk :: opsn (c_exists t + c_isempty t)
+  end.
+
+(* copyFileBetweenFS...: CHECK, Open, Create, CopyDataWithContext (CHECK at the call, CHECK in contextio.copier.ReadFrom,
+   then per chunk CHECK Read CHECK Write, and the final CHECK Read = EOF), Close x2, deferred Close x2 *)
+Definition copyfile_tr (chunks : nat) : list bev :=   (* both files carry a deferred Close from Create to the end *)
+  Chk :: Op :: Op :: ChkD 2 :: ChkD 2 :: flat_map (fun _ => [ChkD 2; Op; ChkD 2; Op]) (repeat tt chunks) ++ [ChkD 2; Op] ++ opsn 4.
+
+(* MkDirAll: Exists, then MkdirAll when missing *)
+Definition c_mkdir_missing : nat := 1 + 1.
+Definition c_mkdir_existing : nat := 5.
+
+(* CopyBetweenFSWithExclusionRegexes for an entry copied INTO the existing directory of its parent:
+   CHECK, Exists(src), IsDir(src), Exists(dest dir), IsDir(dest dir); then for a directory copyFolder (CHECK,
+   MkDir(dst) missing, IsEmpty(src), Ls(src), entries), for a file Exists(dst) (never a directory) and copyFile *)
+Fixpoint copy_child_tr (t : tree) : list bev :=
+  Chk :: opsn (c_exists t + c_isdir t + 5 + 6) ++
+  match t with
+  | F n => Op :: copyfile_tr n
+  | D cs => Chk :: opsn (c_mkdir_missing + c_isempty t) ++
+            match cs with [] => [] | _ => opsn c_ls ++ flat_map copy_child_tr cs end
+  end.
+
+(* CopyWithContext(src directory, missing destination): CHECK (patterns level), CHECK, Exists(src), IsDir(src),
+   Exists(dest)=missing, MkDir(dest); copyFolder: CHECK, MkDir(dest) existing, IsEmpty, Ls, entries *)
+Definition copy_entry (t : tree) : list bev :=
+  match t with
+  | F n => [Chk; Chk]   (* not used: the harness copies directories *)
+  | D cs => Chk :: Chk :: opsn (c_exists t + c_isdir t + 1 + c_mkdir_missing) ++
+            Chk :: opsn (c_mkdir_existing + c_isempty t) ++
+            match cs with [] => [] | _ => opsn c_ls ++ flat_map copy_child_tr cs end
+  end.
+
+(* VFS.move when the back end refuses Rename: CHECK, MkDir(parent of dest), Rename (fails), IsDir(src);
+   directory: moveFolder = CHECK, MkDir(dest) missing, IsEmpty(src), [Ls, entries], remove(src, now empty);
+   file: moveFile = CHECK, CopyBetweenFSWithExclusionRegexes (CHECK, Exists, IsDir, Exists(dest)=missing,
+   MkDir(parent) existing, Exists(dst)=missing, copyFile), Remove(src) *)
+Fixpoint move_tr (parent_cost : nat) (t : tree) : list bev :=
+  Chk :: opsn (parent_cost + 1 + c_isdir t) ++
+  match t with
+  | F n => Chk :: Chk :: opsn (c_exists t + c_isdir t + 1 + c_mkdir_existing + 1) ++ copyfile_tr n ++ [Op]
+  | D cs => Chk :: opsn (c_mkdir_missing + c_isempty t) ++
+            match cs with [] => [] | _ => opsn c_ls ++ flat_map (move_tr c_mkdir_existing) cs end ++
+            remove_tr (D [])
+  end.
+(* MoveWithContext(directory, missing destination under a missing parent): CHECK, Exists(src), IsDir(src), Exists(dest),
+   Exists(target), then move *)
+Definition move_entry (t : tree) : list bev := Chk :: opsn (c_exists t + c_isdir t + 1 + 1) ++ move_tr c_mkdir_missing t.
+
+Definition B_remove : nat := 40.
+Definition B_copy : nat := 30.
+Definition B_move : nat := 56.
+
+Inductive epk := EWalk (cb : nat) | EChmod | EListTree | ERemove | EClean | ECopy | EMoveNoRename.
+Definition ep_trace (e : epk) (t : tree) : list bev :=
+  match e with
+  | EWalk cb => walk_entry cb t
+  | EChmod => chmod_entry t
+  | EListTree => listtree_entry t
+  | ERemove => remove_tr t
+  | EClean => clean_entry t
+  | ECopy => copy_entry t
+  | EMoveNoRename => move_entry t
+  end.
+Definition ep_bound (e : epk) : nat :=
+  match e with
+  | EWalk cb => B_walk cb
+  | EChmod => B_walk 1
+  | EListTree => B_listtree
+  | ERemove | EClean => B_remove
+  | ECopy => B_copy
+  | EMoveNoRename => B_move
+  end.
 
 (* garbage collection (files.go garbageCollect / garbageCollectDir) fans out one goroutine per directory entry
    (Parallelise) and each goroutine tests the context only when it STARTS: under the schedule "every goroutine
@@ -281,8 +380,8 @@ Definition gc_after_cancel_all_started (cs : list tree) : nat :=
 (* (tl (tl _)): the goroutine's test has passed and its first backend operation is in flight when the context ends) *)
 
 (* the trees the harness builds: /t/src = a/b/c.txt, [big.bin], dNNN/fNNN.txt, eNNN/ (listing order) *)
-Definition spec_tree (dirs files : nat) (big : bool) (empty : nat) : tree :=
-  D ([D [D [F]]] ++ (if big then [F] else []) ++ repeat (D (repeat F files)) dirs ++ repeat (D []) empty).
+Definition spec_tree (dirs files : nat) (big : nat) (empty : nat) : tree :=   (* big = chunks of big.bin, 0: absent *)
+  D ([D [D [F 1]]] ++ (match big with O => [] | _ => [F big] end) ++ repeat (D (repeat (F 1) files)) dirs ++ repeat (D []) empty).
 
 (* ---------- correspondence ---------- *)
 Inductive opk :=
@@ -294,6 +393,9 @@ Inductive opk :=
 | OpWalkAfter (cb : nat) (t : tree) (k after : nat)           (* ... issued after cancelling inside the k-th *)
 | OpChmodAfter (t : tree) (k after : nat)
 | OpListTreeAfter (t : tree) (k after : nat)
+| OpEpTotal (e : epk) (t : tree) (total : nat)               (* backend operations of an uncancelled run *)
+| OpEpAfter (e : epk) (t : tree) (k after : nat)              (* ... issued after cancelling inside the k-th *)
+| OpEpBound (e : epk) (observed_max : nat)
 | OpGcAfter (fanout after : nat)                              (* flat directory of [fanout] files, barrier schedule *)
 | OpBound (observed_max bound : nat).
 
@@ -347,7 +449,10 @@ Definition check_case (c : case) : bool :=
   | OpWalkAfter cb t k after => Nat.eqb (ops_after k (walk_entry cb t)) after
   | OpChmodAfter t k after => Nat.eqb (ops_after k (chmod_entry t)) after
   | OpListTreeAfter t k after => Nat.eqb (ops_after k (listtree_entry t)) after
+  | OpEpTotal e t total => Nat.eqb (ops (ep_trace e t)) total
+  | OpEpAfter e t k after => Nat.eqb (ops_after k (ep_trace e t)) after
+  | OpEpBound e m => Nat.leb m (ep_bound e)
   | OpGcAfter n after =>   (* robust to harmless extra/fewer Stat calls: >= 1 per goroutine, <= 2x the model's count *)
-      Nat.leb n after && Nat.leb after (2 * gc_after_cancel_all_started (repeat F n))
+      Nat.leb n after && Nat.leb after (2 * gc_after_cancel_all_started (repeat (F 1) n))
   | OpBound m b => Nat.leb m b
   end.
